@@ -362,3 +362,33 @@ Proof.
   - injection Hc0 as <-. cbn [x_children]. apply forallb_forall. intros b Hb. apply filter_In in Hb. apply Hb.
   - injection Hc0 as <-. congruence.
 Qed.
+
+(* ---------------------------------------------------------------- finding C06-F7: the pinned text *)
+(* two trafs of ONE protected track (cenc, one 3-byte sample each, own IVs): the text of the tree restores both; the
+   pinned text (samples of the FIRST traf of the track for every traf) decrypts the first traf twice - with its own senc
+   and then with the second traf's senc (here the same key stream: back to the encrypted bytes) - and never touches the
+   second: DecryptFragment returns nil, the box tree is the clear one, and BOTH trafs still hold their encrypted bytes *)
+Definition f7_E (k b : list N) : list N := map (fun x => (x + 1) mod 256) (firstn 16 (b ++ repeat 0 16)).
+
+Lemma first_traf_samples_refuted :
+  let di := [(1, Some (mkTI Cenc [] 0 0))] in
+  let key := repeat 3 16 in
+  let iv_of := fun _ : N => repeat 7 16 in
+  let cs := [XOther 16 1;
+             XTraf (mkX 1 [mkT TOther 16 2; mkT TTrun 20 3; mkT TSenc 32 4] [] [] [] [[10; 20; 30]]);
+             XTraf (mkX 1 [mkT TOther 16 5; mkT TTrun 20 6; mkT TSenc 32 7] [] [] [] [[40; 50; 60]])] in
+  match enc_children f7_E f7_E (fun _ _ => Ok []) iv_of di key cs with
+  | Ok cs_e =>
+      let f := xlayout 0 cs_e 8 [[0]; [3]] in
+      decrypt_multi f7_E f7_E di key f = Ok (xlayout 0 (clear_children di cs) 8 [[0]; [3]]) /\
+      match decrypt_multi_pinned f7_E f7_E di key f with
+      | Ok g =>
+          map (fun c => match c with XTraf t => x_data t | _ => [] end) (xf_children g)
+          = [[]; [[2; 28; 22]]; [[32; 58; 52]]] /\
+          map (fun c => match c with XTraf t => x_data t | _ => [] end) cs_e = [[]; [[2; 28; 22]]; [[32; 58; 52]]] /\
+          map x_struct (xf_children g) = map x_struct (xf_children (xlayout 0 (clear_children di cs) 8 [[0]; [3]]))
+      | _ => False
+      end
+  | _ => False
+  end.
+Proof. vm_compute. repeat split; reflexivity. Qed.
